@@ -355,6 +355,33 @@ def check_case(c, out):
         except Exception as ex:
             out.v('exception %s nonzeros_for_columns' % type(ex).__name__, input=inp, cols=C, error=repr(ex))
 
+    # ---- object history: structures DERIVED (transposed, levels reordered) from a structure that has by now answered
+    # row and column queries answer their own row / column queries; the expectation is the pattern of the derived
+    # structure's own sparse matrix with unit data (built through nonzero(), not through the row-wise tables)
+    stage('row/column queries on derived structures')
+    try:
+        derived = [('transpose()', S.transpose())]
+        for pr in c['perms']:
+            derived.append(('reorder%s' % (tuple(pr['ax']),), S.reorder(tuple(pr['ax']))))
+        for nm, Dv in derived:
+            pat = mlmatrix.MLMatrix(structure=Dv, data=np.ones(tuple(len(b) for b in Dv.bidx))).asmatrix().toarray() != 0
+            Md, Nd = pat.shape
+            for rows in (list(range(Md)), list(range(Md - 1, -1, -2))):
+                exp = sorted((int(r), int(j)) for r in rows for j in np.nonzero(pat[r])[0])
+                I, J = Dv.nonzeros_for_rows(rows)
+                if pairs(I, J) != exp:
+                    out.v('nonzeros_for_rows mismatch on a derived structure (%s of a structure queried before)' % nm.split('(')[0],
+                          input=inp, derived=nm, rows=rows, expected=exp, got=pairs(I, J))
+                    break
+            cols = list(range(Nd))
+            exp = sorted((int(i), int(cc)) for cc in cols for i in np.nonzero(pat[:, cc])[0])
+            I, J = Dv.nonzeros_for_columns(cols)
+            if pairs(I, J) != exp:
+                out.v('nonzeros_for_columns mismatch on a derived structure (%s of a structure queried before)' % nm.split('(')[0],
+                      input=inp, derived=nm, expected=exp, got=pairs(I, J))
+    except Exception as ex:
+        out.v('exception %s row/column queries on derived structures' % type(ex).__name__, input=inp, error=repr(ex))
+
     # ---- Kronecker structure from the factor matrices
     if As is not None:
         stage('from_kronecker')
